@@ -274,14 +274,47 @@ theorem init_some {specs : List (Nat × Nat)} {gs : List Group} (h : init specs 
       exact ⟨by intro e; subst e; exact hne rfl, rfl, hs, hsock⟩
     · cases h
 
-theorem add_sorted {gs : List Group} (hs : Sorted gs) (p n : Nat) : Sorted (add gs p n).1 := by
+/-- a refused add: nothing changes -/
+theorem add_refused {gs : List Group} {p k : Nat} {rc : Int} (h : addRefusal gs p k = some rc) (n : Nat) :
+    add gs p n k = (gs, [], rc) := by
   unfold add
-  split
-  · exact hs
-  · rename_i hany
+  rw [h]
+
+/-- an add that is not refused: ordered insertion of the new group (with the picked intervals),
+    then the most preferable group is started if it is CLOSED -/
+theorem add_accepted {gs : List Group} {p k : Nat} (h : addRefusal gs p k = none) (n : Nat) :
+    add gs p n k =
+      ((startFirstIfClosed (sortG (gs ++ [mkGroupIv p n (pickIvs defaultIvs gs)]))).1,
+       (startFirstIfClosed (sortG (gs ++ [mkGroupIv p n (pickIvs defaultIvs gs)]))).2, 0) := by
+  unfold add
+  rw [h]
+
+/-- an add is only accepted for a preference that is not in use -/
+theorem addRefusal_none_fresh {gs : List Group} {p k : Nat} (h : addRefusal gs p k = none) :
+    ¬ (gs.any (fun g => g.pref == p) = true) := by
+  intro hc
+  unfold addRefusal at h
+  rw [if_pos hc] at h
+  cases h
+
+theorem add_cases (gs : List Group) (p n k : Nat) :
+    (∃ rc, addRefusal gs p k = some rc ∧ add gs p n k = (gs, [], rc)) ∨
+    (addRefusal gs p k = none ∧ ¬ (gs.any (fun g => g.pref == p) = true) ∧
+      add gs p n k =
+        ((startFirstIfClosed (sortG (gs ++ [mkGroupIv p n (pickIvs defaultIvs gs)]))).1,
+         (startFirstIfClosed (sortG (gs ++ [mkGroupIv p n (pickIvs defaultIvs gs)]))).2, 0)) := by
+  cases h : addRefusal gs p k with
+  | some rc => exact Or.inl ⟨rc, rfl, add_refused h n⟩
+  | none => exact Or.inr ⟨rfl, addRefusal_none_fresh h, add_accepted h n⟩
+
+theorem add_sorted {gs : List Group} (hs : Sorted gs) (p n k : Nat) : Sorted (add gs p n k).1 := by
+  rcases add_cases gs p n k with ⟨rc, _, h⟩ | ⟨_, hany, h⟩
+  · rw [h]; exact hs
+  · rw [h]
     apply sorted_of_prefs_eq (startFirstIfClosed_prefs _)
     apply sortG_sorted
-    have hp : prefs (gs ++ [mkGroup p n]) = prefs gs ++ [p] := by simp [prefs, mkGroup]
+    have hp : prefs (gs ++ [mkGroupIv p n (pickIvs defaultIvs gs)]) = prefs gs ++ [p] := by
+      simp [prefs, mkGroupIv]
     rw [hp]
     have hn := hs.nodup
     refine List.nodup_append.mpr ⟨hn, (by simp), ?_⟩
@@ -294,15 +327,18 @@ theorem add_sorted {gs : List Group} (hs : Sorted gs) (p n : Nat) : Sorted (add 
     obtain ⟨g, hg, hgp⟩ := List.mem_map.mp ha
     exact List.any_eq_true.mpr ⟨g, hg, by simpa using hgp⟩
 
-theorem add_ne_nil {gs : List Group} (hn : gs ≠ []) (p n : Nat) : (add gs p n).1 ≠ [] := by
-  unfold add
-  split
-  · exact hn
-  · apply ne_nil_of_prefs (startFirstIfClosed_prefs _)
+theorem add_ne_nil {gs : List Group} (hn : gs ≠ []) (p n k : Nat) : (add gs p n k).1 ≠ [] := by
+  rcases add_cases gs p n k with ⟨rc, _, h⟩ | ⟨_, _, h⟩
+  · rw [h]; exact hn
+  · rw [h]
+    apply ne_nil_of_prefs (startFirstIfClosed_prefs _)
     intro e
-    have := (sortG_perm (gs ++ [mkGroup p n])).length_eq
+    have := (sortG_perm (gs ++ [mkGroupIv p n (pickIvs defaultIvs gs)])).length_eq
     rw [e] at this
     simp at this
+
+theorem prefs_setIvs (gs : List Group) (p : Nat) (iv : Nat × Nat × Nat) : prefs (setIvs gs p iv) = prefs gs :=
+  prefs_modG (fun _ _ => rfl)
 
 theorem remove_sorted {gs : List Group} (hs : Sorted gs) (p : Nat) : Sorted (remove gs p).1 := by
   unfold remove
@@ -341,7 +377,8 @@ theorem step_inv {gs : List Group} (hs : Sorted gs) (hn : gs ≠ []) (o : Op) :
     · rename_i r hr
       exact ⟨sorted_of_prefs_eq (event_prefs hr) hs, ne_nil_of_prefs (event_prefs hr) hn⟩
     · exact ⟨hs, hn⟩
-  | add p n => exact ⟨add_sorted hs p n, add_ne_nil hn p n⟩
+  | add p n k => exact ⟨add_sorted hs p n k, add_ne_nil hn p n k⟩
+  | setiv p a b c => exact ⟨sorted_of_prefs_eq (prefs_setIvs gs p _) hs, ne_nil_of_prefs (prefs_setIvs gs p _) hn⟩
   | remove p => exact ⟨remove_sorted hs p, remove_ne_nil hn p⟩
   | start => exact ⟨sorted_of_prefs_eq (start_prefs gs) hs, ne_nil_of_prefs (start_prefs gs) hn⟩
   | stop => exact ⟨sorted_of_prefs_eq (stop_prefs gs) hs, ne_nil_of_prefs (stop_prefs gs) hn⟩
